@@ -190,6 +190,56 @@ def check_equivalence():
             bad(f"space-unrolled single-band program (N={N}, 4 time bins) WITH a measurement cannot be run: {type(e).__name__}: {e}", "F41")
 
 
+def check_integer_shift():
+    """(f) an integer shift s rotates the register by s positions to the left after every time bin (documented; s = 1 is the
+    default for a single band): the unrolled circuit addresses position k of time bin t at register mode (k + s t) mod N"""
+    def build(N, T, shift):
+        prog = sf.TDMProgram(N=N)
+        with prog.context([0.3 + 0.1 * t for t in range(T)], [0.2 * t for t in range(T)], shift=shift) as (p, q):
+            ops.Sgate(0.5, 0) | q[N - 1]
+            ops.BSgate(p[0], 0.3) | (q[0], q[N - 1])
+            ops.Rgate(p[1]) | q[N - 1]
+            ops.MeasureHomodyne(0.4, select=0.3) | q[0]
+        return prog
+    template = [("Sgate", (-1,)), ("BSgate", (0, -1)), ("Rgate", (-1,)), ("MeasureHomodyne", (0,))]
+    for N in (2, 3, 4):
+        for T in (3, 5):
+            ref = build(N, T, "default")
+            ref.unroll()
+            cref = [(type(c.op).__name__, tuple(r.ind for r in c.reg)) for c in ref.circuit]
+            for shift in (1, 2, -1, N - 1):
+                EVAL[0] += 1
+                prog = build(N, T, shift)
+                try:
+                    prog.unroll()
+                except Exception as e:
+                    bad(f"TDM N={N} T={T} shift={shift}: unroll raised {type(e).__name__}: {e}")
+                    continue
+                got = [(type(c.op).__name__, tuple(r.ind for r in c.reg)) for c in prog.circuit]
+                exp = [(nm, tuple((k % N + shift * t) % N for k in pos)) for t in range(T) for nm, pos in template]
+                if got != exp:
+                    bad(f"TDM N={N}, {T} time bins, shift={shift}: the unrolled circuit addresses modes {[g[1] for g in got][:8]}..., a left rotation by {shift} per bin gives {[e[1] for e in exp][:8]}...")
+                    continue
+                if shift == 1 and got != cref:
+                    bad(f"TDM N={N}, {T} time bins: shift=1 and shift='default' unroll to different circuits for a single band")
+            # running: shift = 1 must behave like the default (other integer shifts: open finding F58, reshape_samples assumes 1)
+            EVAL[0] += 1
+            try:
+                np.random.seed(3)
+                a = sf.Engine("gaussian").run(build(N, T, 1)).samples
+                np.random.seed(3)
+                b = sf.Engine("gaussian").run(build(N, T, "default")).samples
+                if a.shape != b.shape or not np.allclose(a, b):
+                    bad(f"TDM N={N}, {T} time bins: shift=1 returns other samples than shift='default'")
+            except Exception as e:
+                bad(f"TDM N={N} T={T} shift=1: run raised {type(e).__name__}: {e}")
+    EVAL[0] += 1
+    try:
+        sf.Engine("gaussian").run(build(3, 5, 2))
+    except Exception as e:
+        bad(f"TDM N=3, 5 time bins, shift=2: running raises {type(e).__name__} (the sample arrangement assumes a shift of one)", "F58")
+
+
 def check_state_machine():
     calls = ["unroll1", "unroll2", "space1", "roll", "lock"]
     L = 3 if tier == "quick" else 4
@@ -356,7 +406,7 @@ def check_crop():
 
 
 if __name__ == "__main__":
-    for f in (check_arrangement, check_equivalence, check_state_machine, check_attributes, check_crop):
+    for f in (check_arrangement, check_equivalence, check_integer_shift, check_state_machine, check_attributes, check_crop):
         try:
             f()
         except Exception:
